@@ -186,12 +186,121 @@ def r7_3(repo: Repo) -> RuleResult:
     return rr
 
 
-RULES = [r7_1, r7_2, r7_3]
+def _slice_stmts(f: Func, e: ast.AST) -> List[ast.stmt]:
+    """Assignments (plain and augmented) the value of `e` may depend on inside f (flow-insensitive closure)."""
+    defs: Dict[str, List[ast.stmt]] = {}
+    for n in walk_no_nested(f.node):
+        if isinstance(n, ast.Assign):
+            for t in n.targets:
+                for x in ast.walk(t):
+                    if isinstance(x, ast.Name):
+                        defs.setdefault(x.id, []).append(n)
+        elif isinstance(n, ast.AugAssign):
+            for x in ast.walk(n.target):
+                if isinstance(x, ast.Name):
+                    defs.setdefault(x.id, []).append(n)
+    out: List[ast.stmt] = []
+    seen = set()
+    work = [e]
+    while work:
+        x = work.pop()
+        for nm in ast.walk(x):
+            if isinstance(nm, ast.Name) and nm.id in defs and nm.id not in seen:
+                seen.add(nm.id)
+                for st in defs[nm.id]:
+                    out.append(st)
+                    work.append(st.value)
+    return out
+
+
+def r7_4(repo: Repo) -> RuleResult:
+    """The solver must see the problem that was given.  Rescaling the cost is harmless for the optimum - unless the
+    scale can be zero: an all-zero cost matrix (every support point on a reference point) is valid input, and dividing
+    it by its own maximum / sum / norm turns every cost into NaN, after which no pivot is ever taken."""
+    from ..cfg import CFG
+    from .common import ancestors, enclosing_stmt, parents_map, rel_of, rel_under
+
+    rr = RuleResult("R7.4", "marginals and cost reach the network-simplex set-up as given, or rescaled only under a non-zero test of the scale", floor=3)
+    f = repo.func(LOT, "transport_plan")
+    p_, q_, cost_ = f.params[0], f.params[1], f.params[2]
+    g = CFG(f.node)
+    pm = parents_map(f.node)
+    handed: List[Tuple[str, ast.AST, ast.Call]] = []
+    for c in repo.calls_in(f):
+        nm = norm(c.func)
+        if nm == "initialize_supply" and len(c.args) >= 2:
+            handed += [("supply", c.args[0], c), ("demand", c.args[1], c)]
+        elif nm == "initialize_cost" and c.args:
+            handed.append(("cost", c.args[0], c))
+    if len(handed) != 3:
+        raise AnalysisError("R7.4: initialize_supply / initialize_cost calls of transport_plan not recognised")
+    sd = single_defs(f)
+
+    def nonzero_guarded(div: ast.AST, d: ast.AST) -> Optional[str]:
+        names = {norm(d)}
+        if isinstance(d, ast.Name) and d.id in sd:
+            names.add(norm(sd[d.id]))
+        want = lambda r: r is not None and ((r[0] == "lt" and r[1] in ("0", "0.0") and r[2] in names)
+                                            or (r[0] == "ne" and any(frozenset((n_, z)) == r[1] for n_ in names for z in ("0", "0.0"))))
+        prev = div
+        for a in ancestors(div, pm):
+            if isinstance(a, ast.IfExp):
+                if prev is a.body and want(rel_of(a.test)):
+                    return "conditional expression on `%s`" % norm(a.test)
+                if prev is a.orelse and want(rel_under(a.test, "false")):
+                    return "conditional expression on `%s`" % norm(a.test)
+            if isinstance(a, ast.stmt):
+                break
+            prev = a
+        st = enclosing_stmt(div, pm)
+        nid = g.node_for(st)
+        for t, lab in g.guards_of(nid):
+            if isinstance(g.nodes[t].ast, ast.AST) and want(rel_under(g.nodes[t].ast, lab)):
+                return "dominating test `%s` (%s edge)" % (norm(g.nodes[t].ast), lab)
+        return None
+
+    for what, e, call in handed:
+        stmts = _slice_stmts(f, e)
+        roots: List[ast.AST] = [e] + stmts
+        divs: List[Tuple[ast.AST, ast.AST]] = []
+        for r_ in roots:
+            if isinstance(r_, ast.AugAssign) and isinstance(r_.op, (ast.Div, ast.FloorDiv, ast.Mod)):
+                divs.append((r_.value, r_.value))
+            for x in ast.walk(r_):
+                if isinstance(x, ast.BinOp) and isinstance(x.op, (ast.Div, ast.FloorDiv, ast.Mod)):
+                    divs.append((x, x.right))
+                elif isinstance(x, ast.Call) and repo.canonical(f.module, x.func) in ("numpy.divide", "numpy.true_divide") and len(x.args) >= 2:
+                    divs.append((x, x.args[1]))
+        construct = "%s handed to the solver: `%s`" % (what, short(e, 50))
+        if not divs:
+            rr.ok(f, construct, "as given (no division on its way; %d assignment(s) in its slice)" % len(stmts), call.lineno)
+            continue
+        for div, d in divs:
+            c2 = "%s divided by `%s`" % (what, short(d, 40))
+            if isinstance(d, ast.Constant) and isinstance(d.value, (int, float)) and d.value != 0:
+                rr.ok(f, c2, "non-zero constant divisor", div.lineno)
+                continue
+            why = nonzero_guarded(div, d)
+            dsrc = {x.id for s_ in [d] + [st.value for st in _slice_stmts(f, d)] for x in ast.walk(s_) if isinstance(x, ast.Name) and x.id in f.params}
+            if why:
+                rr.ok(f, c2, "guarded: %s" % why, div.lineno)
+            elif cost_ in dsrc:
+                rr.bad(f, c2,
+                       "the %s is divided by `%s`, computed from the cost matrix, with no test that it is non-zero: an all-zero cost "
+                       "matrix is valid input (every support point on a reference point), the quotient is NaN everywhere, no arc ever "
+                       "enters the basis and the returned plan does not have the given marginals" % (what, norm(d)), div.lineno)
+            else:
+                rr.note(f, c2, "divisor derived from %s only (probability vectors have positive mass): not judged" % sorted(dsrc), div.lineno)
+    return rr
+
+
+RULES = [r7_1, r7_2, r7_3, r7_4]
 CLAIM = (
     "index plumbing only: R7.1 the linearisation of cell (i, j) used when costs are written (pynndescent initialize_cost, parsed "
     "from the installed package) equals the one used when the flow is read back (get_transport_plan), proved symbolically under "
     "cost.shape = (|p|, |q|); R7.2 the cost matrix has orientation (|p|, |q|) on both branches at both call sites (shape-kind "
-    "propagation through .T); R7.3 demand enters negated."
+    "propagation through .T); R7.3 demand enters negated; R7.4 p, -q and cost reach the solver set-up as given - a "
+    "division on the way whose divisor derives from the cost matrix needs a dominating non-zero test (an all-zero cost matrix is valid input)."
 )
 NOT_DECIDED = (
     "non-negativity, marginals to 1e-9 and optimality to 1e-7 of the network-simplex result: numerical facts about an iterative "
